@@ -457,6 +457,11 @@ def run_obligation(ob, scratch, tier, kf_defines, prop=None):
             if tg is None:   # verifier-generated check (memory safety, arithmetic, frame, callee precondition)
                 tg = ob.get("safety_props", ob["props"])
             f["tags"] = tg
+            # C19 (the wchar_t API behaves like the char API): every clause of a W instance is a C19 clause - the same clause
+            # holds for the A instance, so a W-only failure is a divergence whatever property the clause was written for
+            if prop == "C19" and ob.get("char") == "W" and "C19" not in tg:
+                tg = list(tg) + ["C19"]
+                f["tags"] = tg
             if prop is not None and c not in ("unwind", "known-finding") and prop not in tg:
                 res.setdefault("other_property_failures", []).append(f)
                 continue
